@@ -445,27 +445,33 @@ def rule_drop_nonblocking(m, rep, rid='R5'):
 
 # ------------------------------------------------------------------ C11
 def rule_sentinel(m, rep):
+    """C11-R1/R2: the sentinel is armed before run(), disarmed only after run() returned normally, dropped on both the
+    normal and the unwind path; its Drop respawns exactly one worker and counts exactly one panic iff still armed.
+    The 'armed' state is whatever field cancel() overwrites (a bool, or an Option that cancel() sets to None)."""
     cad = m.cad
-    b = m.spawn_closure
     S = m.sentinel
-    sname = S.rsplit('::', 1)[-1]
+    b = m.run_caller if getattr(m, 'run_caller', None) is not None else m.spawn_closure
+    rep.analysed(b)
     news = [bi for bi, t in b.calls() if not b.blocks[bi]['cleanup'] and t.get('resolved_local') and
             type_head(t.get('dest_ty', '')) == S]
     runs = [bi for bi, t in b.calls() if t.get('resolved') == m.run.path]
     cancels = []
     sent_methods = [x for x in cad.all_bodies if x.impl_self and type_head(x.impl_self) == S and x.impl_trait is None]
+    sfields = [f['name'] for f in adt_fields(cad, S)]
     for x in sent_methods:
-        st = [(bi, si) for bi, blk in enumerate(x.blocks) for si, s in enumerate(blk['stmts'])
-              if s['k'] == 'assign' and any(e[0] == 'field' and e[3] == 'bool' for e in s['place']['p'])
-              and any(e[0] == 'deref' for e in s['place']['p'])]
-        if st:
-            cancels.append(x)
+        Tx = Terms(x)
+        sts = [(st, norm(Tx.store_value(st))) for st in Tx.stores() if st[0] == 's' and st[3][0] == 'field' and st[3][2] in sfields
+               and peel(st[3][1]) == ('param', 1)]
+        if sts:
+            cancels.append((x, sts))
     rep.sites(len(news) + len(runs))
-    if len(news) != 1 or len(runs) != 1 or len(cancels) != 1:
-        rep.unknown('R1', 'spawn-closure/shape', b.where(), 'expected one sentinel construction, one run() call, one cancel method: %d/%d/%d' % (len(news), len(runs), len(cancels)))
+    if len(news) != 1 or len(runs) != 1 or len(cancels) != 1 or len(cancels[0][1]) != 1:
+        rep.unknown('R1', 'spawn-closure/shape', b.where(), 'expected one sentinel construction, one run() call, one cancel method with one store: %d/%d/%d' % (len(news), len(runs), len(cancels)))
         return
-    cancel = cancels[0]
+    cancel, csts = cancels[0]
     rep.analysed(cancel)
+    flagf = csts[0][0][3][2]
+    v_cancel = csts[0][1]
     nw, rn = news[0], runs[0]
     cc = [bi for bi, t in b.calls() if t.get('resolved') == cancel.path]
     dom = C.dominators(b, unwind=True)
@@ -474,10 +480,8 @@ def rule_sentinel(m, rep):
     rt = b.term(rn)
     normal = reach(b, [rt['target']], unwind=False) if rt.get('target') is not None else set()
     unw = reach(b, [rt['unwind']], unwind=True) if isinstance(rt.get('unwind'), int) else set()
-    ok2 = len(cc) == 1 and cc[0] in normal and cc[0] not in unw and rn in dom.get(cc[0], ()) and \
-        not any(c in reach(b, [0], stop=lambda q: q == rn) and c != rn for c in cc if c != rn and rn in reach(b, [c]))
     pre = [c for c in cc if rn in reach(b, [c])]
-    ok2 = ok2 and not pre
+    ok2 = len(cc) == 1 and cc[0] in normal and cc[0] not in unw and rn in dom.get(cc[0], ()) and not pre
     rep.ob('R1', 'cancel-only-after-normal-return', ok2, b.where(cc[0]) if cc else b.where(),
            'cancel() is called once, after run() returned normally, never on the unwind path' if ok2 else
            'cancel() is misplaced (before run, on the unwind path, or missing): a panic would not respawn the worker / a normal exit would')
@@ -486,53 +490,67 @@ def rule_sentinel(m, rep):
     forget = [bi for bi, t in b.calls() if callee_is(t, 'core::mem::forget', 'ManuallyDrop::new')]
     ok3 = bool(drops_n) and bool(drops_u) and not forget
     rep.ob('R1', 'sentinel-dropped-on-both-paths', ok3, b.where(), 'the sentinel is dropped after run() returns and when it unwinds' if ok3 else 'the sentinel is not dropped on the unwind path / is forgotten')
-    # unwind path must not pass cancel before the sentinel drop
-    # cancel body: stores false only ; new body: active true
-    Tc = Terms(cancel)
-    sts = [(st[1], st[2], norm(Tc.store_value(st))) for st in Tc.stores() if st[0] == 's']
-    okc = len(sts) == 1 and sts[0][2] == ('const', 'bool', False, None)
-    rep.ob('R1', 'cancel-disarms', okc, cancel.where(), 'cancel() stores false to the armed flag' if okc else 'cancel() does %s' % [fmt(x[2]) for x in sts])
+    # the guarded body is only entered from the spawned thread
+    if b.def_kind != 'Closure':
+        callers = set(y.path for y in cad.all_bodies for _, t in y.calls() if t.get('resolved') == b.path)
+        okc = callers == {m.spawn_closure.path}
+        rep.ob('R1', 'guarded-body-only-on-spawned-thread', okc, b.where(), 'the function that runs the worker under the sentinel is called only from the spawned closure' if okc else 'called from %s' % sorted(callers))
+    # constructor: armed value
     newb = cad.bodies.get(b.term(nw).get('resolved'))
+    v_armed = None
     if newb is not None:
         rts = ret_terms(Terms(newb), [0])
-        oka = len(rts) == 1 and list(rts)[0][0] == 'adt' and any(v == ('const', 'bool', True, None) for n, v in list(rts)[0][3])
-        rep.ob('R1', 'sentinel-starts-armed', oka, newb.where(), 'a new sentinel is armed' if oka else 'Sentinel::new does not arm the sentinel')
-    # other stores to the armed flag anywhere
-    flagf = None
-    for f in adt_fields(cad, S):
-        if f['ty'] == 'bool':
-            flagf = f['name']
+        if len(rts) == 1 and list(rts)[0][0] == 'adt':
+            v_armed = dict(list(rts)[0][3]).get(flagf)
+    def kind_of(v):
+        if v is None:
+            return None
+        if v[0] == 'const' and v[1] == 'bool':
+            return ('bool', v[2])
+        if v[0] == 'adt' and v[1] in ('core::option::Option',):
+            return ('variant', v[2])
+        return None
+    ka, kc = kind_of(v_armed), kind_of(v_cancel)
+    oka = ka is not None and kc is not None and ka[0] == kc[0] and ka[1] != kc[1]
+    rep.ob('R1', 'sentinel-starts-armed-cancel-disarms', oka, cancel.where(), 'new(): %s = %s ; cancel(): %s = %s' % (flagf, fmt(v_armed) if v_armed else '?', flagf, fmt(v_cancel)) if oka else
+           'cannot see an armed/disarmed pair for field %s: new() gives %s, cancel() stores %s' % (flagf, fmt(v_armed) if v_armed else '?', fmt(v_cancel)))
+    if not oka:
+        return
+    # other stores to the armed field
     others = []
     for x in cad.all_bodies:
-        if x.path in (cancel.path,) or not x.file.endswith('queuing.rs'):
+        if x.path in (cancel.path, m.sentinel_drop.path) or not x.file.endswith('queuing.rs'):
             continue
         for bi, blk in enumerate(x.blocks):
             for si, s in enumerate(blk['stmts']):
-                if s['k'] == 'assign' and any(e[0] == 'field' and e[2] == flagf and e[3] == 'bool' for e in s['place']['p']):
-                    cur = x.locals[s['place']['l']]
-                    if S in cur:
-                        others.append((x, bi, si))
-    rep.ob('R1', 'armed-flag-frame', not others, others[0][0].where(others[0][1], others[0][2]) if others else '', 'only cancel() writes the armed flag')
+                if s['k'] == 'assign' and any(e[0] == 'field' and e[2] == flagf for e in s['place']['p']) and S in x.locals[s['place']['l']]:
+                    others.append((x, bi, si))
+    rep.ob('R1', 'armed-flag-frame', not others, others[0][0].where(others[0][1], others[0][2]) if others else '', 'only cancel() (and the drop itself) writes the armed state')
     # R2: Sentinel::drop
     d = m.sentinel_drop
     ib = inl(cad, d, never=lambda x: x.path == m.spawn.path)
     T = Terms(ib)
     sp = set(bi for bi, t in ib.calls() if t.get('resolved') == m.spawn.path and not ib.blocks[bi]['cleanup'])
     pn = set(bi for bi, t in ib.calls() if not ib.blocks[bi]['cleanup'] and m.is_counter_op(norm(T.call_term(bi)), 'panics', 'fetch_add'))
-    sw = [bi for bi, blk in enumerate(ib.blocks) if blk['term']['k'] == 'switch' and not blk['cleanup']]
     rep.sites(len(sp) + len(pn))
     act = None
-    for bi in sw:
+    for bi, blk in enumerate(ib.blocks):
+        if blk['term']['k'] != 'switch' or blk['cleanup']:
+            continue
         dt, edges = T.switch_facts(bi)
         x = norm(dt)
-        if self_field_name(x) == flagf:
+        subject = x[1] if x[0] == 'discr' else x
+        if subject[0] == 'call' and isinstance(subject[1], str) and subject[1] in ('core::option::Option::take', 'core::option::Option::replace', 'core::mem::replace', 'core::mem::take') and subject[2]:
+            subject = subject[2][0]
+        if _path_has_field(subject, flagf) and peel_root(subject) == ('param', 1):
             act = (bi, edges)
+            break
     if act is None:
-        rep.bad('R2', 'sentinel-drop/tests-armed-flag', d.where(), 'Sentinel::drop does not test the armed flag')
+        rep.bad('R2', 'sentinel-drop/tests-armed-flag', d.where(), 'Sentinel::drop does not test the armed state (%s)' % flagf)
         return
     bi, edges = act
-    t_edge = [s for s, labs in edges.items() if ('bool', True) in labs]
-    f_edge = [s for s, labs in edges.items() if ('bool', False) in labs]
+    t_edge = [s for s, labs in edges.items() if ka in labs]
+    f_edge = [s for s, labs in edges.items() if kc in labs]
     okt = okf = False
     if t_edge and f_edge:
         ct = count_events(ib, lambda x: x in sp, starts=t_edge)
@@ -549,19 +567,30 @@ def rule_sentinel(m, rep):
         elif not okf:
             msg = 'a cancelled sentinel still respawns/counts'
     else:
-        msg = 'armed flag switch has no both edges'
+        msg = 'the armed-state test has no armed/disarmed edges'
     rep.ob('R2', 'sentinel-drop/respawn-and-count-iff-armed', okt and okf, d.where(), msg)
     for s in sp:
         ct = norm(T.call_term(s))
         a = ct[2][0]
-        oka = term_callee_is(a, '<alloc::sync::Arc as core::clone::Clone>::clone') and self_field_name(a[2][0]) is not None
-        rep.ob('R2', 'sentinel-drop/respawns-same-worker', oka, ib.where(s), 'respawn gets a clone of the sentinel\'s own Arc<worker>' if oka else 'respawn receives %s' % fmt(a))
-    # spawn closure passes its captured worker to run and to the sentinel
+        oka2 = term_callee_is(a, '<alloc::sync::Arc as core::clone::Clone>::clone') and peel_root(a[2][0]) == ('param', 1)
+        rep.ob('R2', 'sentinel-drop/respawns-same-worker', oka2, ib.where(s), 'respawn gets a clone of the sentinel\'s own Arc<worker>' if oka2 else 'respawn receives %s' % fmt(a))
     Tb = Terms(b)
     ra = norm(Tb.call_term(rn))[2][0]
     na = norm(Tb.call_term(nw))[2][0]
-    okw = self_field_name(ra) is not None and self_field_name(ra) == self_field_name(na)
-    rep.ob('R1', 'sentinel-guards-the-running-worker', okw, b.where(rn), 'sentinel and run() use the same captured worker')
+    okw = peel_root(ra) == peel_root(na) and peel_root(ra)[0] == 'param'
+    rep.ob('R1', 'sentinel-guards-the-running-worker', okw, b.where(rn), 'sentinel and run() use the same worker')
+
+
+def peel_root(t):
+    """innermost base of an access path (through refs, derefs, fields, payloads, views)"""
+    while True:
+        if t[0] in ('ref', 'deref', 'unsize', 'autoderef', 'load', 'payload', 'field', 'mutated', 'conv'):
+            t = t[1]
+        elif t[0] == 'call' and isinstance(t[1], str) and len(t[2]) == 1 and (t[1].endswith('Deref>::deref') or t[1].rsplit('::', 1)[-1] in VIEW_FNS
+                                                                               or t[1] in ('core::option::Option::take', 'core::mem::take')):
+            t = t[2][0]
+        else:
+            return t
 
 
 def rule_panics_getter(m, rep, rid='R4'):
@@ -585,15 +614,34 @@ def rule_handler_plumbing(m, rep):
         hv = [v for n, v in caps.items() if v == ('field', ('param', 1), 'error_handler')]
         ok = len(hv) == 1
     rep.ob('R2', 'build-moves-handler-into-task', ok, m.build.where(), 'the task closure captures self.error_handler unchanged' if ok else 'the configured handler does not reach the task closure')
-    # Default => None: builder derives Default and new() = default()
+    # every way to obtain a fresh builder (new(), Default) starts with no handler
     dflt = [i for i in cad.impls_of('core::default::Default') if i.get('self_adt') == QB]
-    okd = len(dflt) == 1 and dflt[0]['derived']
+    derived = len(dflt) == 1 and dflt[0]['derived']
+    hty = [f['ty'] for f in adt_fields(cad, QB) if f['name'] == 'error_handler']
+    opt_field = bool(hty) and type_head(hty[0]) == 'core::option::Option'
+
+    def starts_none(body, depth=0):
+        rts = ret_terms(Terms(inl(cad, body)), [0])
+        if not rts:
+            return False
+        for r in rts:
+            if r[0] == 'adt' and r[1] == QB:
+                v = dict(r[3]).get('error_handler')
+                v = norm(v) if v is not None else None
+                if v is None or not (v[0] == 'adt' and v[2] == 'None' or term_callee_is(v, 'as core::default::Default>::default')):
+                    return False
+            elif term_callee_is(r, 'as core::default::Default>::default'):
+                if not (derived and opt_field):
+                    return False
+            else:
+                return False
+        return True
     nb = cad.method(QB, 'new')
-    okn = False
-    if len(nb) == 1:
-        rts = ret_terms(Terms(nb[0]), [0])
-        okn = len(rts) == 1 and term_callee_is(list(rts)[0], 'as core::default::Default>::default')
-    rep.ob('R2', 'no-handler-by-default', okd and okn, nb[0].where() if nb else '', 'builder() starts from the derived Default (handler None, capacity None)')
+    srcs = list(nb)
+    if not derived:
+        srcs += [x for x in cad.all_bodies if x.impl_self and type_head(x.impl_self) == QB and 'Default' in (x.impl_trait or '') and x.name == 'default']
+    okn = bool(nb) and all(starts_none(x) for x in srcs) and (derived or len(srcs) > len(nb) or not dflt)
+    rep.ob('R2', 'no-handler-by-default', okn, nb[0].where() if nb else '', 'a fresh builder (new() / Default) has handler None')
     # R3: the task closure is invoked only through the worker's task field, only in run
     tcs = []
     for b in cad.all_bodies:
